@@ -523,6 +523,7 @@ func runC10(c *run.Ctx) {
 	injected += c10AfterFailedLoad(c)
 	injected += c10RootMoved(c)
 	injected += c10ReflectRequired(c)
+	injected += c10LateRequired(c)
 	injected += c10Subscription(c)
 	c.MinNontriv = injected / 2
 	c.Set("defects_injected", injected)
@@ -757,6 +758,8 @@ func c10Unbound(c *run.Ctx) int {
 		{"misplaced-directive", `zzbad: name @deprecated`, "deprecated", ""},
 		{"undefined-inline-type", `... on NopeTypeZz { name }`, "NopeTypeZz", ""},
 		{"undeclared-arg-alone", `zzbad: __typename(zz_undeclared: 1)`, "zz_undeclared", ""},
+		// an argument only ONE implementer adds to its own `name`: the interface, which is the container here, does not declare it
+		{"undeclared-arg-alone", `zzbad: name(limit: 2)`, "limit", ""},
 	}
 	for i := 0; i < n && !c.TooMany(); i++ {
 		r := c.Rand(760000 + i)
@@ -1205,6 +1208,81 @@ func c10ReflectRequired(c *run.Ctx) int {
 			}
 			if diag != "" {
 				c.Violation("c10-missing-required-arg", map[string]interface{}{"backend": "reflect (method)", "sdl": sdl, "document": rq.text, "diag": diag, "response": fmt.Sprint(resp)})
+			}
+		}
+	}
+	return done
+}
+
+type c10LObj struct{ lateCalls *int }
+
+func (o *c10LObj) Resolve(f *ggql.Field, args map[string]interface{}) (interface{}, error) {
+	switch f.Name {
+	case "query", "inner", "node":
+		return o, nil
+	case "late":
+		*o.lateCalls++
+		return 7, nil
+	}
+	return 1, nil
+}
+
+// c10LateRequired: a field with a required argument that arrives by `extend` after the root has already answered
+// requests on that type (object and interface containers). Leaving the argument out is the request's error from then on:
+// the response names it and the resolver is not called without it.
+func c10LateRequired(c *run.Ctx) int {
+	done := 0
+	const base = "type Query implements Node { a: Int inner: Query node: Node }\ninterface Node { a: Int }\n"
+	const ext = "extend interface Node { late(req: Int!, opt: Int): Int }\nextend type Query { late(req: Int!, opt: Int): Int }\n"
+	warm := []string{`{ a }`, `{ inner { a } node { a } }`, `{ __type(name: "Query") { fields { name args { name } } } }`, `{ node { ... on Query { a } } }`}
+	probes := []struct {
+		text  string
+		calls int
+	}{{`{ late }`, 0}, {`{ inner { late(opt: 1) } }`, 0}, {`{ node { late } }`, 0}, {`{ ok: late(req: 1) bad: late }`, 1}, {`{ node { a late(opt: 2) } inner { late(req: 3) } }`, 1}}
+	for round := 0; round < c.N(20, 300); round++ {
+		r := c.Rand(797000 + round)
+		calls := 0
+		root := ggql.NewRoot(&c10LObj{lateCalls: &calls})
+		var hist []string
+		if err := root.ParseString(base); err != nil {
+			c.Violation("c10-schema-rejected", map[string]interface{}{"error": err.Error()})
+			return done
+		}
+		for k := r.Intn(4); k > 0; k-- {
+			w := warm[r.Intn(len(warm))]
+			_ = root.ResolveString(w, "", nil)
+			hist = append(hist, w)
+		}
+		if err := root.ParseString(ext); err != nil {
+			c.Violation("c10-schema-rejected", map[string]interface{}{"error": err.Error(), "history": hist})
+			return done
+		}
+		hist = append(hist, "load: "+ext)
+		for k := 0; k < 3; k++ {
+			p := probes[r.Intn(len(probes))]
+			calls = 0
+			var resp map[string]interface{}
+			pv, _ := run.Protect(func() { resp = root.ResolveString(p.text, "", nil) })
+			hist = append(hist, p.text)
+			done++
+			c.Eval("late-required|"+strings.Join(hist, "|"), true)
+			c.Bucket("defect", "missing-required-arg")
+			c.Bucket("container", "field-added-by-extend-after-requests")
+			msgs := fmt.Sprint(resp["errors"])
+			diag := ""
+			switch {
+			case pv != nil:
+				diag = fmt.Sprint("panic: ", pv)
+			case resp["errors"] == nil:
+				diag = "no error reported for the missing required argument"
+			case !strings.Contains(msgs, "req"):
+				diag = "no error message names the missing argument"
+			case calls != p.calls:
+				diag = fmt.Sprintf("the resolver of late was invoked %d times, %d of the selections in the request are valid", calls, p.calls)
+			}
+			if diag != "" {
+				c.Violation("c10-missing-required-arg", map[string]interface{}{"backend": "iface", "history": hist, "document": p.text, "diag": diag, "response": fmt.Sprint(resp)})
+				break
 			}
 		}
 	}
